@@ -49,11 +49,11 @@ func (o Opts) list() []genql.QueryOption {
 
 // Out is the outcome of New+Exec.
 type Out struct {
-	Rows   []any  // normalised rows (nil slice -> empty)
-	Raw    []any  // rows exactly as returned
-	Err    string // error returned by New or Exec ("" = success)
-	AtNew  bool   // the error came from New
-	Panic  string // a panic escaped New or Exec
+	Rows  []any  // normalised rows (nil slice -> empty)
+	Raw   []any  // rows exactly as returned
+	Err   string // error returned by New or Exec ("" = success)
+	AtNew bool   // the error came from New
+	Panic string // a panic escaped New or Exec
 	// ErrRows is the number of rows returned *together with* an error (must be 0)
 	ErrRows int
 	failed  bool
